@@ -11,6 +11,11 @@ Case kinds (all JSON):
       line, if instruction events are unavailable) executed in any orso/*.py frame - one forced switch per run, for
       every such point, plus one run switching at all of them -; at each switch a second real thread serialises and
       decodes row b from start to finish.  Every record either thread gets back is recorded.
+  {"kind": "sess", "ops": [op..]}         a session on row OBJECTS (round 7); op =
+      ["new", "base" | [nfields, tuples_only], [tree..], via_df]   cls(tuple(values)); via_df: stored through DataFrame.append (which sizes it)
+      ["size", r] rows[r].nbytes() | ["read", r, what] a read-only accessor | ["emit", r, ts] rows[r].as_bytes + type(rows[r]).from_bytes
+      ["upd", r, cell, [index..], uop]   in-place change of a list / map the row holds (the harness keeps its own reference to it);
+                                         uop = ["append", tree] | ["put", key-hex, tree] | ["setat", i, tree] | ["pop"] | ["clear"]
 Value trees: ["n"] | ["b", bool] | ["i", int] | ["f", bits:int] | ["s", hex-utf8 | {"rep": [byte, n]}] | ["y", hex | {"rep": ..}]
              | ["a", [tree..]] | ["m", [[key-hex, tree]..]]
 """
@@ -41,7 +46,11 @@ LEVEL_TEXT = ("Machine-checked Coq theorems over an executable model of Row.as_b
               "every record both threads get back with the model in Coq. Text is stored verbatim (the record determines the row: encode_row is "
               "injective); the correspondence sweeps every code point that a Unicode normal form, a case mapping or strip() would rewrite. "
               "Every entry point: classes made by Row.create_class (any number of field names, plain or tuples_only) and from_bytes_cython called "
-              "directly are modelled and proved to agree with the base encoder / decoder; every row case is also encoded and decoded through them.")
+              "directly are modelled and proved to agree with the base encoder / decoder; every row case is also encoded and decoded through them. "
+              "Row objects: a session model (heap of row objects with the size nbytes() caches; steps: made directly or through DataFrame.append, "
+              "nbytes(), the read-only accessors, in-place changes of the lists / maps a row holds, as_bytes + from_bytes) with the theorem that after "
+              "any session as_bytes is the encoder applied to the values the object holds now and decodes to exactly these; sessions are run on "
+              "real objects and compared step by step with the model in Coq.")
 LEVEL_NOTE = ("Trusted: Coq kernel + vm_compute; the hand-written msgpack reader/writer model (ormsgpack itself is Rust: validated byte-for-byte "
               "by the correspondence, not verified); the Python object <-> value-tree mapping of the harness (tuples become lists, dict = "
               "insertion-ordered association list, floats by their 64 bits); time.time_ns() is an input. compiled.pyx cannot be rebuilt: its "
@@ -50,12 +59,15 @@ LEVEL_NOTE = ("Trusted: Coq kernel + vm_compute; the hand-written msgpack reader
               "Schedules: the division of as_bytes into atomic steps that touch no module-level state is a modelling statement, validated by the "
               "forced-preemption runs (two threads, one switch per run at every instruction boundary inside orso/*.py frames plus one run switching "
               "at all of them; switches inside C calls - packb, the compiled decoder - cannot be forced and are not explored; more than one "
-              "independent switch per run only in the switch-at-every-point form). No axioms (Print Assumptions: closed).")
+              "independent switch per run only in the switch-at-every-point form). Sessions: containers shared between two row objects, and values "
+              "replaced by objects of other kinds, are not modelled; rejection of torn / extended / flipped records inside a session and the "
+              "second decode after the harness scribbled on the first decoded row are judged by the oracle (the Coq side compares the record and "
+              "its decode). No axioms (Print Assumptions: closed).")
 DESIGN_REF = "DESIGN.md section 8, C01"
-COQ_IMPORTS = "From Orso Require Import Model.C01 Model.C01_Sched."
-COQ_CHECKS = {"row": "c01_check_row", "raw": "c01_check_raw", "cap": "c01_check_cap", "sched": "c01_check_sched"}
-COQ_SHOW = {"row": "c01_show_row", "raw": "c01_show_raw", "cap": "c01_show_cap", "sched": "c01_show_sched"}
-MODEL_VOS = ["Model/C01.vo", "Model/C01_Sched.vo"]
+COQ_IMPORTS = "From Orso Require Import Model.C01 Model.C01_Sched Model.C01_Sess."
+COQ_CHECKS = {"row": "c01_check_row", "raw": "c01_check_raw", "cap": "c01_check_cap", "sched": "c01_check_sched", "sess": "c01_check_sess"}
+COQ_SHOW = {"row": "c01_show_row", "raw": "c01_show_raw", "cap": "c01_show_cap", "sched": "c01_show_sched", "sess": "c01_show_sess"}
+MODEL_VOS = ["Model/C01.vo", "Model/C01_Sched.vo", "Model/C01_Sess.vo"]
 
 
 # --------------------------------------------------------------------------------------
@@ -286,7 +298,10 @@ RULE = ("rows are generated as typed value trees (nil, bool, int, float-by-bits,
         "mutated payloads, random garbage, header variants); schedule cases take two rows and two clock readings and force every "
         "single thread switch (instruction granularity) of one thread's as_bytes + from_bytes in favour of a second thread doing the same on the other row; "
         "the text sweep (exhaustive, from the live unicodedata) puts every code point that NFC/NFD/NFKC/NFKD/lower/upper/casefold/title/strip rewrites, and the "
-        "canonical decomposition of every decomposable one, at the top level, inside a list, as a map value and as a map key. "
+        "canonical decomposition of every decomposable one, at the top level, inside a list, as a map value and as a map key; "
+        "session cases make 1-3 row objects of one class (directly or through DataFrame.append), then size / read / change held containers in place "
+        "(append, put, setitem, pop, clear, nested) / serialise them in a fixed grid (every first step that could leave state behind x every kind of change) "
+        "and in random order. "
         "A case is non-trivial when the encoder emitted a record of a non-empty row "
         "(row cases) or the header checks passed (raw cases); distinct by canonical JSON of the case")
 TRUSTED = [
@@ -558,6 +573,8 @@ def observe(case):
         return _observe_cap(case)
     if kind == "sched":
         return _observe_sched(case)
+    if kind == "sess":
+        return _observe_sess(case)
     row_obj = [_to_py(t) for t in case["row"]]
     try:
         rec = _encode(row_obj, case["ts"])
@@ -950,6 +967,8 @@ def oracle(case, obs):
         return None          # nothing else is claimed about foreign bytes; the model comparison covers them
     if kind == "sched":
         return _oracle_sched(case, obs)
+    if kind == "sess":
+        return _oracle_sess(case, obs)
     if kind == "cap":
         if case["delta"] <= 0:
             if obs["enc"][0] != "ok":
@@ -1134,6 +1153,8 @@ def to_coq(case, obs):
         return ("cap", "(%s, %s)" % (L.Z(obs["payload_len"]), L.boolean(obs["enc"][0] == "ok")))
     if kind == "sched":
         return _to_coq_sched(case, obs)
+    if kind == "sess":
+        return _to_coq_sess(case, obs)
     if kind == "raw":
         data = _unspec(case["data"])
         lit = _coq_bytes(data)
@@ -1231,6 +1252,434 @@ def _to_coq_sched(case, obs):
     return ("sched", "((%s, %s, (%s, %s), %s, %s) : sched_case)" % (L.N(case["a"]["ts"]), rows[0], L.N(case["b"]["ts"]), rows[1], oa, ob))
 
 
+# --------------------------------------------------------------------------------------
+# sessions on row objects (round 7): make / size / read / change a held container in place / serialise + decode
+# --------------------------------------------------------------------------------------
+SESS_READS = 11
+
+
+def _upd_here_tree(u, t):
+    """the update on a value tree (the harness's own bookkeeping of what the object holds; same table as upd_here in Model/C01_Sess.v).
+    -> new tree, or None when the update does not apply there (then the harness makes no call)"""
+    k = t[0]
+    if u[0] == "append" and k == "a":
+        return ["a", t[1] + [u[1]]]
+    if u[0] == "put" and k == "m":
+        if any(kk == u[1] for kk, _ in t[1]):
+            return ["m", [[kk, u[2] if kk == u[1] else v] for kk, v in t[1]]]
+        return ["m", t[1] + [[u[1], u[2]]]]
+    if u[0] == "setat" and k == "a" and 0 <= u[1] < len(t[1]):
+        return ["a", t[1][:u[1]] + [u[2]] + t[1][u[1] + 1:]]
+    if u[0] == "pop" and k in ("a", "m") and t[1]:
+        return [k, t[1][:-1]]
+    if u[0] == "clear" and k in ("a", "m"):
+        return [k, []]
+    return None
+
+
+def _upd_tree(t, path, u):
+    if not path:
+        return _upd_here_tree(u, t)
+    i = path[0]
+    if t[0] == "a" and 0 <= i < len(t[1]):
+        sub = _upd_tree(t[1][i], path[1:], u)
+        return None if sub is None else ["a", t[1][:i] + [sub] + t[1][i + 1:]]
+    if t[0] == "m" and 0 <= i < len(t[1]):
+        sub = _upd_tree(t[1][i][1], path[1:], u)
+        return None if sub is None else ["m", t[1][:i] + [[t[1][i][0], sub]] + t[1][i + 1:]]
+    return None
+
+
+def _sess_trees(case):
+    """what every object holds after each step, from the case alone: [[row trees per object] per step]"""
+    rows, out = [], []
+    for op in case["ops"]:
+        if op[0] == "new":
+            rows = rows + [list(op[2])]
+        elif op[0] == "upd" and 0 <= op[1] < len(rows) and 0 <= op[2] < len(rows[op[1]]):
+            new = _upd_tree(rows[op[1]][op[2]], op[3], op[4])
+            if new is not None:
+                row = rows[op[1]]
+                rows = rows[:op[1]] + [row[:op[2]] + [new] + row[op[2] + 1:]] + rows[op[1] + 1:]
+        out.append(rows)
+    return out
+
+
+def _apply_upd_py(obj, path, u):
+    """the same update on the live Python container, reached through the harness's own reference (never through the row)"""
+    for i in path:
+        if type(obj) is list and 0 <= i < len(obj):
+            obj = obj[i]
+        elif type(obj) is dict and 0 <= i < len(obj):
+            obj = list(obj.values())[i]
+        else:
+            return
+    if u[0] == "append" and type(obj) is list:
+        obj.append(_to_py(u[1]))
+    elif u[0] == "put" and type(obj) is dict:
+        obj[bytes.fromhex(u[1]).decode("utf-8", "surrogatepass")] = _to_py(u[2])
+    elif u[0] == "setat" and type(obj) is list and 0 <= u[1] < len(obj):
+        obj[u[1]] = _to_py(u[2])
+    elif u[0] == "pop" and type(obj) is list and obj:
+        obj.pop()
+    elif u[0] == "pop" and type(obj) is dict and obj:
+        obj.popitem()
+    elif u[0] == "clear" and type(obj) in (list, dict):
+        obj.clear()
+
+
+def _sess_read(row, cells, what):
+    import copy
+
+    try:
+        if what == 0:
+            row.as_map
+        elif what == 1:
+            row.as_dict
+        elif what == 2:
+            row.as_json
+        elif what == 3:
+            row.values
+        elif what == 4:
+            row.keys()
+        elif what == 5:
+            repr(row), str(row)
+        elif what == 6:
+            row == tuple(cells), row != tuple(cells)
+        elif what == 7:
+            hash(row)
+        elif what == 8:
+            copy.copy(row)
+        elif what == 9:
+            len(row), list(row), row[0]
+        else:
+            row.get("c0"), row.get("nope", 1)
+    except Exception:  # noqa: BLE001 - an accessor that does not apply to this class / these values (hash of a list ...)
+        pass
+
+
+def _scribble(v):
+    if type(v) is list:
+        for x in v:
+            _scribble(x)
+        v.append("scribbled")
+    elif type(v) is dict:
+        for x in list(v.values()):
+            _scribble(x)
+        v["scribbled"] = 1
+
+
+def _observe_sess(case):
+    import orso.row as R
+    from orso.dataframe import DataFrame
+
+    objs = []        # (row object, the harness's own list of the cell objects)
+    steps = []
+    for op in case["ops"]:
+        if op[0] == "new":
+            cells = [_to_py(t) for t in op[2]]
+            birth, row = None, None
+            if op[3]:
+                try:
+                    names = ["c%d" % i for i in range(len(cells))]
+                    df = DataFrame(rows=[], schema=names)
+                    df.append(dict(zip(names, cells)))
+                    row = df._rows[-1]
+                except Exception as e:  # noqa: BLE001
+                    birth = _cls(e)
+            if row is None:
+                cls = R.Row if op[1] == "base" else _row_class(*op[1])
+                row = cls(tuple(cells))
+            objs.append((row, cells))
+            steps.append(["new", birth])
+            continue
+        if not 0 <= op[1] < len(objs):
+            steps.append(["none"])
+            continue
+        row, cells = objs[op[1]]
+        if op[0] == "size":
+            try:
+                n = row.nbytes()
+                steps.append(["size", ["ok", n] if type(n) is int else ["raise", "Other:not-int"]])
+            except Exception as e:  # noqa: BLE001
+                steps.append(["size", ["raise", _cls(e)]])
+        elif op[0] == "read":
+            _sess_read(row, cells, op[2])
+            steps.append(["none"])
+        elif op[0] == "upd":
+            if 0 <= op[2] < len(cells):
+                _apply_upd_py(cells[op[2]], op[3], op[4])
+            steps.append(["none"])
+        elif op[0] == "emit":
+            cur = [_canon(c) for c in cells]
+            real = R.time
+            R.time = _Clock(real, op[2])
+            try:
+                rec = row.as_bytes
+                enc = ["ok", _spec(rec)] if type(rec) is bytes else ["raise", "Other:not-bytes"]
+            except Exception as e:  # noqa: BLE001
+                enc = ["raise", _cls(e)]
+            finally:
+                R.time = real
+            if enc[0] != "ok":
+                steps.append(["emit", enc, None, cur, []])
+                continue
+            fn = type(row).from_bytes
+
+            def dec_once():
+                out, vals = _decode_with(fn, rec)
+                if vals is not None and len(vals) == len(cells) and all(_strict_eq(a, b) for a, b in zip(cells, vals)):
+                    out = ["ok-same"]
+                return out, vals
+
+            out, vals = dec_once()
+            if vals is not None:
+                # the decoded row belongs to the caller: scribble on every container in it, then decode the same record again
+                _scribble(vals)
+                again, _ = dec_once()
+                if again != out:
+                    out = again
+            bad = []
+            for label, data in _path_samples(rec):
+                o, _ = _decode_with(fn, data)
+                if o != DE:
+                    bad.append([label, o])
+            steps.append(["emit", enc, out, cur, bad])
+        else:
+            raise KeyError(op[0])
+    return {"steps": steps}
+
+
+def _op_text(op):
+    if op[0] == "new":
+        return "row %s made%s" % ("of class Row" if op[1] == "base" else "of a class with %d field names" % op[1][0], " through DataFrame.append" if op[3] else "")
+    if op[0] == "size":
+        return "rows[%d].nbytes()" % op[1]
+    if op[0] == "read":
+        return "rows[%d] read (%d)" % (op[1], op[2])
+    if op[0] == "upd":
+        return "rows[%d]: %s on the container at cell %d%s" % (op[1], op[4][0], op[2], "".join("[%d]" % i for i in op[3]))
+    return "rows[%d].as_bytes" % op[1]
+
+
+def _oracle_sess(case, obs):
+    trees = _sess_trees(case)
+    for k, (op, st) in enumerate(zip(case["ops"], obs["steps"])):
+        if op[0] != "emit" or st[0] != "emit":
+            continue
+        row = trees[k][op[1]]
+        if st[3] != row:
+            return f"harness: after step {k} object {op[1]} holds {str(st[3])[:200]}, the bookkeeping says {str(row)[:200]}"
+        history = "; ".join(_op_text(o) for o in case["ops"][:k] if o[0] == "new" or o[1] == op[1])
+        why = _emit_verdict(row, st[1], st[2])
+        if why is None and st[4]:
+            label, o = st[4][0]
+            why = f"the record with {label} must be rejected with DataError, got {str(o)[:200]}"
+        if why is not None:
+            return (f"the bytes of a row describe the values it holds when it is serialised, whatever was done with the object before; "
+                    f"step {k} ({_op_text(op)}, holding {str([_to_py(t) for t in row])[:200]}) after [{history}]: {why}")
+    return None
+
+
+_UOP = {"pop": "UPop", "clear": "UClear"}
+
+
+def _coq_uop(u):
+    if u[0] == "append":
+        return "(UAppend %s)" % _coq_val(u[1])
+    if u[0] == "put":
+        return "(UPut %s %s)" % (_coq_bytes(bytes.fromhex(u[1])), _coq_val(u[2]))
+    if u[0] == "setat":
+        return "(USetAt %s %s)" % (L.nat(u[1]), _coq_val(u[2]))
+    return _UOP[u[0]]
+
+
+def _coq_cls(c):
+    return "Base" if c == "base" else "(Made %s %s)" % (L.N(c[0]), L.boolean(c[1]))
+
+
+def _to_coq_sess(case, obs):
+    out = []
+    for op, st in zip(case["ops"], obs["steps"]):
+        if op[0] == "new":
+            cls = [len(op[2]), False] if op[3] else op[1]
+            o = "SNew %s %s %s" % (_coq_cls(cls), L.lst(_coq_val(t) for t in op[2]), L.boolean(op[3]))
+            b = "OBirth %s" % ("None" if st[1] is None else "(Some %s)" % _coq_exn(st[1]))
+        elif op[0] == "size":
+            o = "SSize %s" % L.nat(op[1])
+            b = "ONone" if st[0] == "none" else "OSize (%s)" % ("Ok %s" % L.N(st[1][1]) if st[1][0] == "ok" else "Raise %s" % _coq_exn(st[1][1]))
+        elif op[0] == "read":
+            o, b = "SRead %s %s" % (L.nat(op[1]), L.N(op[2])), "ONone"
+        elif op[0] == "upd":
+            o, b = "SUpd %s %s %s %s" % (L.nat(op[1]), L.nat(op[2]), L.lst(L.nat(i) for i in op[3]), _coq_uop(op[4])), "ONone"
+        else:
+            o = "SEmit %s %s" % (L.nat(op[1]), L.N(op[2]))
+            if st[0] == "none":
+                b = "ONone"
+            elif st[1][0] != "ok":
+                b = "OEmit (ERaise %s) OSame" % _coq_exn(st[1][1])
+            else:
+                lit, oc = _coq_bytes(_unspec(st[1][1])), _coq_outcome(st[2])
+                if lit is None or oc is None or len(oc) > OUTCOME_LIT_LIMIT:
+                    return None
+                b = "OEmit (EBytes %s) %s" % (lit, oc)
+        out.append("(%s, %s)" % (o, b))
+    return ("sess", "(%s : sess_case)" % L.lst(out))
+
+
+def _classify_sess(case, obs):
+    yield "sess-objects=%d" % sum(1 for o in case["ops"] if o[0] == "new")
+    seen = set()
+    state = {}
+    for op, st in zip(case["ops"], obs["steps"]):
+        seen.add("sess-op:" + op[0] + (":" + op[4][0] if op[0] == "upd" else ":via-df" if op[0] == "new" and op[3] else ""))
+        if op[0] == "new":
+            state[len(state)] = "sized" if op[3] and st[1] is None else "fresh"
+        elif op[0] == "size" and st[0] == "size" and st[1][0] == "ok":
+            state[op[1]] = "sized"
+        elif op[0] == "emit" and state.get(op[1]) == "fresh":
+            state[op[1]] = "emitted"
+        elif op[0] == "upd" and state.get(op[1]) in ("sized", "emitted", "read"):
+            state[op[1]] += "+changed"
+        elif op[0] == "read" and state.get(op[1]) == "fresh":
+            state[op[1]] = "read"
+        if op[0] == "emit" and "+changed" in state.get(op[1], ""):
+            seen.add("sess:emit-after-" + state[op[1]])
+    yield from sorted(seen)
+
+
+# ---- generators ----
+def _sess_scalar(rng):
+    r = rng.random()
+    if r < 0.35:
+        return ["i", rng.choice([0, 1, -1, 127, 128, 255, 65536, 2**63 - 1, -2**63, 2**64 - 1]) if rng.random() < 0.5 else rng.randrange(-1000, 1000)]
+    if r < 0.55:
+        return ["s", rng.choice(["", "61", "6162", "c3a9", "e282ac", "f09f9880"])]
+    if r < 0.65:
+        return ["n"]
+    if r < 0.75:
+        return ["b", rng.random() < 0.5]
+    if r < 0.87:
+        return ["f", rng.choice(FLOAT_BITS)]
+    return ["y", rng.choice(["", "00", "ff10"])]
+
+
+def _sess_value(rng, depth):
+    r = rng.random()
+    if depth <= 0 or r < 0.3:
+        return _sess_scalar(rng)
+    n = rng.choice([0, 1, 1, 2, 3])
+    if r < 0.68:
+        out = [_sess_value(rng, depth - 1) for _ in range(n)]
+        if len(out) == 2 and out[0] == ["s", "5f5f6461746574696d655f5f"]:
+            out = out[:1]
+        return ["a", out]
+    keys = rng.sample(["6b", "61", "7a", "", "c3a9", "6b32"], n)
+    return ["m", [[k, _sess_value(rng, depth - 1)] for k in keys]]
+
+
+def _containers(t, path, out):
+    if t[0] in ("a", "m"):
+        out.append((path, t[0], len(t[1])))
+        for i, x in enumerate(t[1]):
+            _containers(x if t[0] == "a" else x[1], path + [i], out)
+
+
+def _random_upd(rng, row):
+    """an update that applies to some container the row holds now (None if it holds none)"""
+    where = []
+    for c, t in enumerate(row):
+        sub = []
+        _containers(t, [], sub)
+        where += [(c, p, k, n) for p, k, n in sub]
+    if not where:
+        return None
+    c, p, k, n = rng.choice(where)
+    v = _sess_value(rng, 1)
+    if k == "a":
+        u = rng.choice([["append", v], ["append", v], ["append", v]] + ([["setat", rng.randrange(n), v], ["pop"], ["clear"]] if n else []))
+    else:
+        u = rng.choice([["put", rng.choice(["6b", "6e6577", "7a", ""]), v]] * 3 + ([["pop"], ["clear"]] if n else []))
+    return c, p, u
+
+
+def _random_sess(rng):
+    nobj = rng.choice([1, 1, 2, 2, 3])
+    width = rng.choice([1, 2, 2, 3, 4])
+    cls = "base" if rng.random() < 0.08 else [width + rng.choice([0, 0, 1]), rng.random() < 0.3]     # one class for all objects: class-level state is shared
+    ops = []
+    for _ in range(nobj):
+        row = [_sess_value(rng, 2) if rng.random() < 0.7 else _sess_scalar(rng) for _ in range(width)]
+        if rng.random() < 0.06:
+            row[rng.randrange(width)] = ["i", 2**64]            # refused by packb until ... never: every emit / size raises
+        ops.append(["new", cls, row, cls != "base" and rng.random() < 0.35])
+    ts = rng.choice([0, 1, TS_DEFAULT, 2**64 - 40]) if rng.random() < 0.5 else rng.getrandbits(60)
+    for k in range(rng.randrange(4, 13)):
+        r = rng.randrange(nobj)
+        x = rng.random()
+        if x < 0.25:
+            ops.append(["size", r])
+        elif x < 0.38:
+            ops.append(["read", r, rng.randrange(SESS_READS)])
+        elif x < 0.72:
+            cur = _sess_trees({"ops": ops})[-1][r]
+            u = _random_upd(rng, cur)
+            ops.append(["upd", r, u[0], u[1], u[2]] if u else ["size", r])
+        else:
+            ops.append(["emit", r, ts + k])
+    for r in range(nobj):
+        ops.append(["emit", r, ts + 20 + r])
+    return {"kind": "sess", "ops": ops}
+
+
+def _fixed_sess():
+    """every first step that could leave something behind (made through DataFrame.append, nbytes(), an earlier as_bytes, each accessor)
+    x every kind of in-place change, then as_bytes; plus two objects of one class, the empty row, rows that cannot be packed"""
+    row3 = [["i", 1], ["a", [["s", "61"]]], ["m", [["6b", ["a", [["i", 1]]]]]]]
+    upds = [[1, [], ["append", ["s", "62"]]], [2, [0], ["append", ["i", 2]]], [2, [], ["put", "7a", ["n"]]], [2, [], ["put", "6b", ["i", 5]]],
+            [1, [], ["setat", 0, ["f", 0x8000000000000000]]], [1, [], ["pop"]], [2, [], ["pop"]], [1, [], ["clear"]], [2, [], ["clear"]]]
+    firsts = [("df", None)] + [("ctor", f) for f in ([["size", 0]], [["emit", 0, 5]], [["size", 0], ["size", 0]], [["emit", 0, 5], ["size", 0]], [])] \
+        + [("ctor", [["read", 0, w]]) for w in range(SESS_READS)]
+    n = 0
+    for how, first in firsts:
+        for j in range(3 if first and first[0][0] == "read" else len(upds)):
+            u = upds[(n + j) % len(upds)] if first and first[0][0] == "read" else upds[j]
+            ops = [["new", [3, bool(n & 1)], row3, how == "df"]] + (first or []) + [["upd", 0] + u, ["emit", 0, 9 + n]]
+            if n % 3 == 0:     # ... and once more after a second change and a second sizing
+                ops += [["size", 0], ["upd", 0, 1, [], ["append", ["n"]]], ["emit", 0, 10 + n]]
+            yield {"kind": "sess", "ops": ops}
+            n += 1
+    # two objects of one class: sizing / serialising one must not show in the other
+    a, b = [["a", [["i", 1]]]], [["a", [["i", 2]]], ]
+    for via in (False, True):
+        yield {"kind": "sess", "ops": [["new", [1, False], a, via], ["new", [1, False], b, via], ["size", 0], ["emit", 0, 1], ["upd", 1, 0, [], ["append", ["i", 3]]],
+                                       ["emit", 1, 2], ["size", 1], ["upd", 0, 0, [], ["clear"]], ["emit", 0, 3], ["emit", 1, 4]]}
+    # the empty row, a row of scalars only, class Row itself (nbytes() cannot store: no __dict__), a row packb refuses until its list is emptied
+    yield {"kind": "sess", "ops": [["new", [0, False], [], True], ["size", 0], ["emit", 0, 0], ["new", [0, False], [], False], ["emit", 1, 1]]}
+    yield {"kind": "sess", "ops": [["new", [2, True], [["i", 1], ["s", "61"]], False], ["size", 0], ["upd", 0, 0, [], ["append", ["n"]]], ["emit", 0, 1]]}
+    yield {"kind": "sess", "ops": [["new", "base", [["a", []]], False], ["size", 0], ["upd", 0, 0, [], ["append", ["i", 1]]], ["emit", 0, 1], ["read", 0, 0]]}
+    yield {"kind": "sess", "ops": [["new", [1, False], [["a", [["i", 2**64]]]], True], ["size", 0], ["emit", 0, 1], ["upd", 0, 0, [], ["clear"]], ["size", 0],
+                                   ["emit", 0, 2], ["upd", 0, 0, [], ["append", ["i", -2**63 - 1]]], ["size", 0], ["emit", 0, 3]]}
+
+
+def _shrink_sess(case):
+    ops = case["ops"]
+    for i, op in enumerate(ops):
+        if op[0] != "new":
+            yield {"kind": "sess", "ops": ops[:i] + ops[i + 1:]}
+    news = [i for i, op in enumerate(ops) if op[0] == "new"]
+    if len(news) > 1:        # drop the last object and every step on it
+        last = len(news) - 1
+        yield {"kind": "sess", "ops": [op for i, op in enumerate(ops) if i != news[-1] and (op[0] == "new" or op[1] != last)]}
+    for i, op in enumerate(ops):
+        if op[0] == "new" and op[3]:
+            yield {"kind": "sess", "ops": ops[:i] + [[op[0], op[1], op[2], False]] + ops[i + 1:]}
+        if op[0] == "upd" and op[4][0] in ("append", "put", "setat") and op[4][-1] != ["n"]:
+            yield {"kind": "sess", "ops": ops[:i] + [op[:4] + [op[4][:-1] + [["n"]]]] + ops[i + 1:]}
+        if op[0] == "emit" and op[2] != 0:
+            yield {"kind": "sess", "ops": ops[:i] + [["emit", op[1], 0]] + ops[i + 1:]}
+
+
 def _model_skips_raw(data, obs):
     """datetime.fromtimestamp on a numeric argument can fail on range/NaN: not modelled."""
     if obs["dec"][0] != "raise" or obs["dec"][1] == "DataError" or len(data) < 14:
@@ -1261,6 +1710,9 @@ def nontrivial_key(case, obs):
             return None
     elif case["kind"] == "sched":
         if not obs["points"] or obs["solo"]["a"][0][0] != "ok":
+            return None
+    elif case["kind"] == "sess":
+        if not any(o[0] == "emit" and o[1][0] == "ok" for o in obs["steps"]):
             return None
     return hashlib.sha1(json.dumps(case, sort_keys=True).encode()).hexdigest()
 
@@ -1308,6 +1760,8 @@ def classify(case, obs):
         if sa[0] == "ok" and sb[0] == "ok":
             la, lb = len(_unspec(sa[1])), len(_unspec(sb[1]))
             yield "sched-lengths:" + ("equal" if la == lb else "different")
+    elif case["kind"] == "sess":
+        yield from _classify_sess(case, obs)
     else:
         yield "cap-delta=%d" % case["delta"]
 
@@ -1671,6 +2125,7 @@ def corpus():
                "flips": "all", "classes": grid}
     yield from _fixed_raw()
     yield from _fixed_sched()
+    yield from _fixed_sess()
 
 
 NESTED_ROW = [
@@ -1811,6 +2266,9 @@ def generate(rng, tier):
     # schedule cases last: the row / raw sequence of a given seed is what it was before they existed
     for _ in range(40 if tier == "quick" else 1200):
         yield _random_sched(rng)
+    # sessions on row objects after that, for the same reason
+    for _ in range(120 if tier == "quick" else 3000):
+        yield _random_sess(rng)
 
 
 def _generate_rows_raws(rng, tier):
@@ -1832,11 +2290,16 @@ def search(rng):
         i += 1
         if i % 8 == 0:
             yield _random_sched(rng)
+        elif i % 8 == 4:
+            yield _random_sess(rng)
         else:
             yield _row_case(rng, _random_row(rng))
 
 
 def shrink(case):
+    if case["kind"] == "sess":
+        yield from _shrink_sess(case)
+        return
     if case["kind"] == "sched":
         for who in ("a", "b"):
             for sub in shrink({"kind": "row", "ts": case[who]["ts"], "row": case[who]["row"]}):
